@@ -227,6 +227,8 @@ class Unit:
             b.r8_extend_plain()
         if 'R10' in allowed:
             b.r10_map_collect_tail()
+        if 'R11' in allowed:
+            b.r11_continue_guard()
         if 'R9' in allowed:
             b.r9_filter_count()
         if 'R7' in allowed:
@@ -277,6 +279,8 @@ class Unit:
                 b.r8_extend_plain()
             if 'R10' in allowed:
                 b.r10_map_collect_tail()
+            if 'R11' in allowed:
+                b.r11_continue_guard()
             if 'R9' in allowed:
                 b.r9_filter_count()
             if 'R7' in allowed:
@@ -344,6 +348,8 @@ class Unit:
             self.trusted.append('%s( at generated line %d' % (m.group(1), ln))
         for m in re.finditer(r'\buninterp\s+spec\s+fn\s+(\w+)', g):
             self.trusted.append('uninterpreted spec fn ' + m.group(1))
+        for m in re.finditer(r'#\[derive\([^)]*\bStructural\b[^)]*\)\]\s*(?:pub\s+)?(?:enum|struct)\s+(\w+)', g):
+            self.trusted.append('Structural marker on %s (exec == is structural equality; added only while the source derives PartialEq, Eq)' % m.group(1))
 
     # --------------------------------------------------------------------------------
     def region_of(self, off):
